@@ -12,7 +12,8 @@ the index; `reshape`: same C-order position; `concatenate`: locate the piece).
 `shapeOf env e = some s → eval env e = some (tabulate s (getOf env e))` — the array the evaluator
 builds, flattened in C order, holds at every multi-index exactly the element the index maps name.
 The per-operation `get` lemmas (`stackArr_eq`, `expandDimsArr_eq`, `broadcastArr_eq`, `transposeArr_eq`,
-`sliceArr_eq`, `reshapeArr_eq`, `concatArr_eq`, `zipArr_eq`, `divArr_eq`) are its cases.
+`sliceArr_eq`, `reshapeArr_eq`, `concatArr_eq`, `zipArr_eq`, `divArr_eq`, `padArr_eq`, `mapArr_eq`, `zipWithArr_eq`,
+`whereSetArr_eq`, `reduceArr_eq`, `windowAnyArr_eq`) are its cases.
 Core Lean only.
 -/
 namespace Ems
@@ -47,6 +48,18 @@ def shapeOf (env : NpEnv) : NpExpr → Option (List Nat)
   | .add a b => (shapeOf env a).bind fun s => (shapeOf env b).bind fun t => if s = t then some s else none
   | .sub a b => (shapeOf env a).bind fun s => (shapeOf env b).bind fun t => if s = t then some s else none
   | .divConst a c => if c = 0 then none else shapeOf env a
+  | .pad x ws _ => (shapeOf env x).bind fun s => if ws.length = s.length then some (padShape ws s) else none
+  | .isnan x => shapeOf env x
+  | .band a b => (shapeOf env a).bind fun s => (shapeOf env b).bind fun t => if s = t then some s else none
+  | .bor a b => (shapeOf env a).bind fun s => (shapeOf env b).bind fun t => if s = t then some s else none
+  | .whereSet x m _ => (shapeOf env x).bind fun s => (shapeOf env m).bind fun t =>
+      if t = s.take t.length then some s else none
+  | .nanmeanAxis x ax => (shapeOf env x).bind fun s => (ax.norm s.length).map fun k => removeAt k s
+  | .anyAxis x ax => (shapeOf env x).bind fun s => (ax.norm s.length).map fun k => removeAt k s
+  | .padAll x w _ => (shapeOf env x).bind fun s => (w.val env.sizes).map fun n =>
+      padShape (List.replicate s.length (n, n)) s
+  | .windowAny x p e => (shapeOf env x).bind fun s => (shapeOf env p).bind fun t => (e.val env.sizes).bind fun _ =>
+      if t.length = s.length then some s else none
   | .unsupported _ => none
 def shapesOf (env : NpEnv) : List NpExpr → Option (List (List Nat))
   | [] => some []
@@ -94,6 +107,41 @@ def getOf (env : NpEnv) : NpExpr → List Nat → Option Rat
   | .add a b, idx => lift2 (· + ·) (getOf env a idx) (getOf env b idx)
   | .sub a b, idx => lift2 (· - ·) (getOf env a idx) (getOf env b idx)
   | .divConst a c, idx => (getOf env a idx).map (· / c)
+  | .pad x ws fill, idx =>
+    match shapeOf env x with
+    | some s => if padIn ws s idx then getOf env x (padSrc ws idx) else fill
+    | none => none
+  | .isnan x, idx => isnanV (getOf env x idx)
+  | .band a b, idx => bandV (getOf env a idx) (getOf env b idx)
+  | .bor a b, idx => borV (getOf env a idx) (getOf env b idx)
+  | .whereSet x m v, idx =>
+    match shapeOf env m with
+    | some t => if truthy (getOf env m (idx.take t.length)) then v else getOf env x idx
+    | none => none
+  | .nanmeanAxis x ax, idx =>
+    match shapeOf env x with
+    | some s =>
+      match ax.norm s.length with
+      | some k => nanmean ((List.range (s.getD k 0)).map fun t => getOf env x (insertAt k t idx))
+      | none => none
+    | none => none
+  | .anyAxis x ax, idx =>
+    match shapeOf env x with
+    | some s =>
+      match ax.norm s.length with
+      | some k => anyV ((List.range (s.getD k 0)).map fun t => getOf env x (insertAt k t idx))
+      | none => none
+    | none => none
+  | .padAll x w fill, idx =>
+    match shapeOf env x, w.val env.sizes with
+    | some s, some n =>
+      if padIn (List.replicate s.length (n, n)) s idx then getOf env x (padSrc (List.replicate s.length (n, n)) idx)
+      else fill
+    | _, _ => none
+  | .windowAny x p e, idx =>
+    match shapeOf env p, e.val env.sizes with
+    | some t, some n => boolVal (truthy (getOf env x idx) || anyWindowAt t (fun i => getOf env p i) idx n)
+    | _, _ => none
   | .unsupported _, _ => none
 /-- element `idx` of the `i`-th expression of a list -/
 def getOfList (env : NpEnv) : List NpExpr → Nat → List Nat → Option Rat
@@ -190,6 +238,76 @@ theorem divArr_eq (s : List Nat) (f : List Nat → Option Rat) (c : Rat) (hc : c
   apply List.map_congr_left
   intro n _
   cases h : unravel s n <;> simp [h]
+
+theorem padArr_eq (s : List Nat) (f : List Nat → Option Rat) (ws : List (Nat × Nat)) (fill : Option Rat)
+    (h : ws.length = s.length) :
+    padArr (tabulate s f) ws fill
+      = some (tabulate (padShape ws s) fun idx => if padIn ws s idx then f (padSrc ws idx) else fill) := by
+  simp only [padArr, tabulate_shape, h, if_true, Option.some.injEq]
+  apply tabulate_congr
+  intro idx hidx
+  by_cases hin : padIn ws s idx = true
+  · simp only [hin, if_true]
+    exact get_tabulate _ _ _ (inRange_padSrc ws s idx h hidx hin)
+  · simp [hin]
+
+theorem mapArr_eq (op : Option Rat → Option Rat) (s : List Nat) (f : List Nat → Option Rat) :
+    mapArr op (tabulate s f) = tabulate s fun idx => op (f idx) := by
+  simp only [mapArr, tabulate_shape]
+  apply tabulate_congr
+  intro idx hidx
+  rw [get_tabulate _ _ _ hidx]
+
+theorem zipWithArr_eq (op : Option Rat → Option Rat → Option Rat) (s : List Nat) (f g : List Nat → Option Rat) :
+    zipWithArr op (tabulate s f) (tabulate s g) = some (tabulate s fun idx => op (f idx) (g idx)) := by
+  simp only [zipWithArr, tabulate_shape, if_true, Option.some.injEq]
+  apply tabulate_congr
+  intro idx hidx
+  rw [get_tabulate _ _ _ hidx, get_tabulate _ _ _ hidx]
+
+theorem whereSetArr_eq (s t : List Nat) (f g : List Nat → Option Rat) (v : Option Rat) (h : t = s.take t.length) :
+    whereSetArr (tabulate s f) (tabulate t g) v
+      = some (tabulate s fun idx => if truthy (g (idx.take t.length)) then v else f idx) := by
+  simp only [whereSetArr, tabulate_shape, ← h, if_true, Option.some.injEq]
+  apply tabulate_congr
+  intro idx hidx
+  have ht : InRange t (idx.take t.length) := by
+    have := inRange_take t.length s idx hidx
+    rwa [← h] at this
+  simp only [get_tabulate _ _ _ ht, get_tabulate _ _ _ hidx]
+
+theorem reduceArr_eq (op : List (Option Rat) → Option Rat) (s : List Nat) (f : List Nat → Option Rat)
+    (ax : Axis) (k : Nat) (hk : ax.norm s.length = some k) :
+    reduceArr op (tabulate s f) ax
+      = some (tabulate (removeAt k s) fun idx => op ((List.range (s.getD k 0)).map fun t => f (insertAt k t idx))) := by
+  simp only [reduceArr, tabulate_shape, hk, Option.map_some, Option.some.injEq]
+  apply tabulate_congr
+  intro idx hidx
+  congr 1
+  apply List.map_congr_left
+  intro t ht
+  exact get_tabulate _ _ _ (inRange_insertAt_of_removeAt k t s idx (Axis.norm_lt _ _ _ hk) hidx (List.mem_range.mp ht))
+
+theorem anyWindowAt_congr (t : List Nat) (f g : List Nat → Option Rat) (idx : List Nat) (n : Nat)
+    (h : ∀ i, InRange t i → f i = g i) : anyWindowAt t f idx n = anyWindowAt t g idx n := by
+  unfold anyWindowAt
+  congr 1
+  funext off
+  cases hr : ravel t (addIdx idx off) with
+  | none => simp
+  | some k => simp [h _ (ravel_inRange t _ k hr)]
+
+theorem windowAnyArr_eq (s t : List Nat) (f g : List Nat → Option Rat) (n : Nat) (h : t.length = s.length) :
+    windowAnyArr (tabulate s f) (tabulate t g) n
+      = some (tabulate s fun idx => boolVal (truthy (f idx) || anyWindowAt t g idx n)) := by
+  simp only [windowAnyArr, tabulate_shape, h, if_true, Option.some.injEq, List.getElem?_toArray]
+  apply tabulate_congr
+  intro idx hidx
+  rw [get_tabulate _ _ _ hidx]
+  congr 2
+  apply anyWindowAt_congr
+  intro i hi
+  exact get_tabulate t g i hi
 
 /-! ### lists of operands -/
 
@@ -498,6 +616,100 @@ theorem eval_sound (env : NpEnv) (henv : env.WF) : ∀ (e : NpExpr) (s : List Na
       apply tabulate_congr
       intro idx _
       simp [getOf]
+  | .pad x ws fill, s', h => by
+    simp only [shapeOf, Option.bind_eq_some_iff] at h
+    obtain ⟨s, hs, h⟩ := h
+    split at h
+    · rename_i hl
+      simp only [Option.some.injEq] at h
+      subst h
+      simp only [eval, eval_sound env henv x s hs, Option.bind_some, padArr_eq s _ ws fill hl, Option.some.injEq]
+      apply tabulate_congr
+      intro idx _
+      simp [getOf, hs]
+    · simp at h
+  | .isnan x, s', h => by
+    simp only [shapeOf] at h
+    simp only [eval, eval_sound env henv x s' h, Option.map_some, mapArr_eq, Option.some.injEq]
+    apply tabulate_congr
+    intro idx _
+    simp [getOf]
+  | .band a b, s', h => by
+    simp only [shapeOf, Option.bind_eq_some_iff] at h
+    obtain ⟨s, hs, t, ht, h⟩ := h
+    split at h
+    · rename_i heq
+      simp only [Option.some.injEq] at h
+      subst h; subst heq
+      simp only [eval, eval_sound env henv a s hs, eval_sound env henv b s ht, Option.bind_some, zipWithArr_eq,
+        Option.some.injEq]
+      apply tabulate_congr
+      intro idx _
+      simp [getOf]
+    · simp at h
+  | .bor a b, s', h => by
+    simp only [shapeOf, Option.bind_eq_some_iff] at h
+    obtain ⟨s, hs, t, ht, h⟩ := h
+    split at h
+    · rename_i heq
+      simp only [Option.some.injEq] at h
+      subst h; subst heq
+      simp only [eval, eval_sound env henv a s hs, eval_sound env henv b s ht, Option.bind_some, zipWithArr_eq,
+        Option.some.injEq]
+      apply tabulate_congr
+      intro idx _
+      simp [getOf]
+    · simp at h
+  | .whereSet x m v, s', h => by
+    simp only [shapeOf, Option.bind_eq_some_iff] at h
+    obtain ⟨s, hs, t, ht, h⟩ := h
+    split at h
+    · rename_i hpre
+      simp only [Option.some.injEq] at h
+      subst h
+      simp only [eval, eval_sound env henv x s hs, eval_sound env henv m t ht, Option.bind_some,
+        whereSetArr_eq s t _ _ v hpre, Option.some.injEq]
+      apply tabulate_congr
+      intro idx _
+      simp [getOf, ht]
+    · simp at h
+  | .nanmeanAxis x ax, s', h => by
+    simp only [shapeOf, Option.bind_eq_some_iff, Option.map_eq_some_iff] at h
+    obtain ⟨s, hs, k, hk, rfl⟩ := h
+    simp only [eval, eval_sound env henv x s hs, Option.bind_some, reduceArr_eq nanmean s _ ax k hk,
+      Option.some.injEq]
+    apply tabulate_congr
+    intro idx _
+    simp [getOf, hs, hk]
+  | .anyAxis x ax, s', h => by
+    simp only [shapeOf, Option.bind_eq_some_iff, Option.map_eq_some_iff] at h
+    obtain ⟨s, hs, k, hk, rfl⟩ := h
+    simp only [eval, eval_sound env henv x s hs, Option.bind_some, reduceArr_eq anyV s _ ax k hk,
+      Option.some.injEq]
+    apply tabulate_congr
+    intro idx _
+    simp [getOf, hs, hk]
+  | .padAll x w fill, s', h => by
+    simp only [shapeOf, Option.bind_eq_some_iff, Option.map_eq_some_iff] at h
+    obtain ⟨s, hs, n, hn, rfl⟩ := h
+    simp only [eval, eval_sound env henv x s hs, Option.bind_some, hn, tabulate_shape,
+      padArr_eq s _ (List.replicate s.length (n, n)) fill (by simp), Option.some.injEq]
+    apply tabulate_congr
+    intro idx _
+    simp [getOf, hs, hn]
+  | .windowAny x p e, s', h => by
+    simp only [shapeOf, Option.bind_eq_some_iff] at h
+    obtain ⟨s, hs, t, ht, n, hn, h⟩ := h
+    split at h
+    · rename_i hl
+      simp only [Option.some.injEq] at h
+      subst h
+      simp only [eval, eval_sound env henv x s hs, eval_sound env henv p t ht, Option.bind_some, hn,
+        windowAnyArr_eq s t _ _ n hl, Option.some.injEq]
+      apply tabulate_congr
+      intro idx _
+      simp [getOf, ht, hn]
+    · simp at h
   | .unsupported _, _, h => by simp [shapeOf] at h
 theorem evalList_sound (env : NpEnv) (henv : env.WF) : ∀ (xs : List NpExpr) (ss : List (List Nat)),
     shapesOf env xs = some ss → evalList env xs = some (views env xs ss)
